@@ -300,7 +300,7 @@ const c01Rule = "rapid-drawn lists of 1..4 compression steps sharing one Compres
 	"through the pooled package functions; sources from the segment grammar (random, small-alphabet text, runs, periodic, copy-back at distances " +
 	"incl. 65534..65537, counters) with total-length classes 0..16, 17..64, ..4096, 64Ki+-16, ..1Mi, ..4Mi; HC depth from {0,1,2,3,4,7,16,64," +
 	"Level1..9,65535,65536,65537,2^20,2^32-1}. One case in four is a history of 2..7 *related* sources on one object: each derived from the previous one (its first k bytes dropped, k bytes put in front, " +
-	"its head or tail of k bytes, extended, or the same), starting from a source of at most 16/24/40/300/70000/200000 bytes, with short-destination calls in between. Pinned: every length 0..16 x every compressor x 6 contents. Non-trivial = the emitted block has " +
+	"its head or tail of k bytes, extended, or the same), starting from a source of at most 16/24/40/300/70000/200000 bytes, with short-destination calls in between. Pinned: every length 0..40 x every compressor x 6 contents; periodic runs of every period 1..20 and length period+4..period+28 between random bytes; a match, 1..14 literals, then L = 4..24 bytes repeated from D = 8..20 back. Non-trivial = the emitted block has " +
 	">= 1 match (reference parse); distinct by hash(source, compressor kind, depth). Long-lived objects (pinned regimes): targets compressed exactly 255/256/257/65535/65536/65537 calls after nearly identical inputs; after 2^31, 2^32, 2^32+2^31, 2^33 bytes (minus 64 or 4096) through the same object; single sources of 9 MiB of random bytes."
 
 func TestC01Pinned(t *testing.T) {
@@ -330,6 +330,26 @@ func TestC01Pinned(t *testing.T) {
 			for _, comp := range []string{"fast-obj", "hc-obj"} {
 				d := gen.Data{Segs: []gen.Seg{{K: "rand", N: dist, S: uint64(dist)}, {K: "copy", N: ml, P: dist, S: 1}, {K: "rand", N: 40, S: 2}}}
 				pinned(t, "C01", "C01/roundtrip", c01Case{Steps: []c01Step{{Data: d, Comp: comp, Depth: 0}}}, runC01)
+			}
+		}
+	}
+	// short periodic runs between random bytes: matches of every small (offset, length) pair - offsets 1..20, lengths 4..28 - where
+	// the decoders choose between their wide-copy shortcuts and the overlap-safe paths
+	for per := 1; per <= 20; per++ {
+		for extra := 4; extra <= 28; extra++ {
+			for _, comp := range []string{"fast-obj", "hc-obj"} {
+				d := gen.Data{Segs: []gen.Seg{{K: "rand", N: 20, S: uint64(per*100 + extra)}, {K: "period", N: per + extra, S: uint64(per), P: per}, {K: "rand", N: 20, S: uint64(extra)}}}
+				pinned(t, "C01", "C01/roundtrip", c01Case{Steps: []c01Step{{Data: d, Comp: comp, Depth: 0}}}, runC01)
+			}
+		}
+	}
+	// the same with a short literal run in front of the match (a match, k random bytes, then bytes repeated from D back, L of them,
+	// overlapping when L > D): k 1..14, D 8..20, L 4..24
+	for k := 1; k <= 14; k += 2 {
+		for dist := 8; dist <= 20; dist++ {
+			for l := 4; l <= 24; l++ {
+				d := gen.Data{Segs: []gen.Seg{{K: "rand", N: 24, S: uint64(dist*1000 + l)}, {K: "copy", N: 8, P: 24, S: 1}, {K: "rand", N: k, S: uint64(k)}, {K: "copy", N: l, P: dist, S: 2}, {K: "rand", N: 20, S: uint64(l)}}}
+				pinned(t, "C01", "C01/roundtrip", c01Case{Steps: []c01Step{{Data: d, Comp: []string{"fast-obj", "hc-obj"}[(k/2+dist+l)%2], Depth: 0}}}, runC01)
 			}
 		}
 	}
